@@ -124,7 +124,7 @@ def argv_of(case):
 
 
 def run_impl(cases):
-    from implutil import canon, outcome_of, reset_simple_parsing_state
+    from implutil import canon, outcome_of, reset_simple_parsing_state, set_current_ns
 
     out = []
     for case in cases:
@@ -135,6 +135,7 @@ def run_impl(cases):
             from simple_parsing import ArgumentParser
             ns = {}
             exec(compile(source(case), "<c02>", "exec", dont_inherit=True), ns)
+            set_current_ns(ns)
             p = ArgumentParser()
             p.add_arguments(ns["D"], "d")
             d = p.parse_args(argv).d
